@@ -97,6 +97,8 @@ class Module:
         self.functions = {}    # name -> Function (defined)
         self.declares = {}     # name -> (retty, [paramtys])
         self.meta = {}         # '!N' -> raw text
+        self.aliases = {}      # alias name -> aliasee (functions)
+        self.bad_functions = {}  # name -> why it could not be parsed
         self._metaparsed = {}
 
     # -- layout ------------------------------------------------------------
@@ -826,7 +828,11 @@ def parse_module(path, name=None):
                 cur = None
                 curblock = None
                 continue
+            if cur is False and not line.startswith((' ', '\t')) and ':' not in s.split(';')[0][:200] and False:
+                pass
             if s.startswith('#dbg_'):
+                continue
+            if cur is False:
                 continue
             m = re.match(r'^("[^"]+"|[-A-Za-z0-9_.$]+):(\s*;.*)?$', s)
             if m and not line.startswith('  '):
@@ -852,19 +858,42 @@ def parse_module(path, name=None):
                     s += ' ' + lines[i].strip()
                     i += 1
             # strip trailing comments (only '; preds' style outside strings)
-            ins = parse_instr(s, mod)
+            if cur is False:
+                continue      # inside a function that could not be parsed: skip to its end
+            try:
+                ins = parse_instr(s, mod)
+            except Unsupported as e:
+                # the function uses something outside the supported subset (floats, vectors...): it is
+                # recorded as unusable; calling it makes the run inconclusive, it is never skipped silently
+                mod.bad_functions[cur.name] = str(e)
+                mod.functions.pop(cur.name, None)
+                cur = False
+                continue
             ins.fn = cur
             if curblock is None:
                 raise Unsupported('instruction outside block')
             curblock.append(ins)
             continue
         if s.startswith('define '):
-            cur = parse_define(s, mod)
+            try:
+                cur = parse_define(s, mod)
+            except Unsupported as e:
+                nm = re.search(r'@("[^"]*"|[-A-Za-z0-9_.$]+)\(', s)
+                if nm:
+                    mod.bad_functions[nm.group(1).strip('"')] = str(e)
+                cur = False
+                curblock = None
+                continue
             mod.functions[cur.name] = cur
             curblock = None
             continue
         if s.startswith('declare '):
-            parse_declare(s, mod)
+            try:
+                parse_declare(s, mod)
+            except Unsupported as e:
+                nm = re.search(r'@("[^"]*"|[-A-Za-z0-9_.$]+)\(', s)
+                if nm:
+                    mod.bad_functions[nm.group(1).strip('"')] = str(e)
             continue
         if s.startswith('%') and ' = type ' in s:
             m = re.match(r'^(%(?:"[^"]*"|[-A-Za-z0-9_.$]+)) = type (.*)$', s)
@@ -875,7 +904,13 @@ def parse_module(path, name=None):
             p = P(tokenize(body), mod, s)
             mod.named_types[nm] = p.type()
             continue
+        if s.startswith('@') and re.search(r'\b(float|double)\b', s) and ' alias ' not in s:
+            continue     # floating point constants: never referenced by the supported subset (a use is an error)
         if s.startswith('@'):
+            am = re.match(r'^(@(?:"[^"]*"|[-A-Za-z0-9_.$]+)) = .*\balias\b.*, ptr (@(?:"[^"]*"|[-A-Za-z0-9_.$]+))\s*$', s)
+            if am:
+                mod.aliases[am.group(1)[1:].strip('"')] = am.group(2)[1:].strip('"')
+                continue
             parse_global(s, mod)
             continue
         if s.startswith('!'):
